@@ -10,12 +10,15 @@
    same length and order, each resource the same ([same_soft]: type, ID,
    every attribute value, every relationship's IDs), the included resources
    all come back (in the marshaled order, a permutation of the original) and
-   meta comes back as the same map.  NOT PROVED (correspondence + oracle
-   only): struct-backed resources, identifier documents and the error
-   objects' member-wise round trip (one worked example below). *)
+   meta comes back as the same map.  [C02_error_object_roundtrip] /
+   [C02_error_document_roundtrip]: every error object comes back member by
+   member (the eight members; links, source and meta as the same maps) and an
+   error document comes back without data, with the same errors and meta.
+   NOT PROVED (correspondence + oracle only): struct-backed resources and
+   identifier documents. *)
 From JV Require Import Model.Base Model.GoTime Gen.TypeGo Model.Schema Model.Value
   Model.Json Model.Resource Model.Marshal Model.Unmarshal Model.Document
-  Model.SoftRes Proofs.C03Facts Proofs.C02Facts Proofs.C01Full Proofs.C02Full.
+  Model.SoftRes Proofs.C03Facts Proofs.C02Facts Proofs.C01Full Proofs.C02Full Proofs.C02Errors.
 
 Theorem C02_written_kind_partial : forall e d fields dj,
   marshal_data e d fields = Ok (Some dj) ->
@@ -90,6 +93,26 @@ Theorem C02_document_roundtrip_nil : forall e sc fields self d incl,
               unmarshal_document e sc j = Ok u /\ u_data u = UNil /\ rest_ok d incl u.
 Proof. exact doc_roundtrip_nil. Qed.
 Print Assumptions C02_document_roundtrip_nil.
+
+(* ---- error objects and error documents ---- *)
+Theorem C02_error_object_roundtrip : forall er,
+  NoDup (map fst (e_links er)) -> NoDup (map fst (e_source er)) -> NoDup (map fst (e_meta er)) ->
+  exists er', dec_errors [error_json er] = Some [er'] /\
+    e_id er' = e_id er /\ e_code er' = e_code er /\ e_status er' = e_status er /\
+    e_title er' = e_title er /\ e_detail er' = e_detail er /\
+    (forall k, lookup k (e_links er') = lookup k (e_links er)) /\
+    (forall k, lookup k (e_source er') = lookup k (e_source er)) /\
+    (forall k, lookup k (e_meta er') = lookup k (e_meta er)).
+Proof. exact error_roundtrip. Qed.
+Print Assumptions C02_error_object_roundtrip.
+
+Theorem C02_error_document_roundtrip : forall e s d fields self,
+  d_errors d <> [] -> Forall err_nodup (d_errors d) -> d_data d = DNil ->
+  exists j u, marshal_document e d fields self = Ok j /\ unmarshal_document e s j = Ok u /\
+    u_data u = UNil /\ u_included u = [] /\ Forall2 err_same (d_errors d) (u_errors u) /\
+    (NoDup (map fst (d_meta d)) -> forall k, lookup k (u_meta u) = lookup k (d_meta d)).
+Proof. exact error_document_roundtrip. Qed.
+Print Assumptions C02_error_document_roundtrip.
 
 (* the hypotheses are satisfiable: the example resource of C01 *)
 Example c02_rt_ok_example : forall e,
